@@ -661,4 +661,91 @@ theorem synErrs_nil_iff_wf (split : List Char → List (List Char)) (known : Lis
     have h2 := hsplit _ _ ha
     exact ih a (by omega)
 
+/-! ### every index points inside the template -/
+
+/-- A statement's body is no longer than the text between its braces, and its `}` lies inside the template. -/
+theorem stmtsGo_span : ∀ (rest : List Char) (esc : Bool) (d : Nat) (cur : List Char) (s i : Nat),
+    (d ≠ 0 → cur.length + s + 1 ≤ i) →
+    ∀ x ∈ stmtsGo esc d cur s i rest, x.body.length + x.start + 1 ≤ x.stop ∧ x.stop < i + rest.length := by
+  intro rest
+  induction rest with
+  | nil => intro esc d cur s i _ x h; cases esc <;> simp [stmtsGo] at h
+  | cons c rest ih =>
+    intro esc d cur s i hd x h
+    have fin : ∀ {y : Stmt}, (y.body.length + y.start + 1 ≤ y.stop ∧ y.stop < i + 1 + rest.length) →
+        (y.body.length + y.start + 1 ≤ y.stop ∧ y.stop < i + (c :: rest).length) := by
+      intro y ⟨a, b⟩; exact ⟨a, by simp; omega⟩
+    have grow : ∀ r : Char, d ≠ 0 → (cur ++ [r]).length + s + 1 ≤ i + 1 := by
+      intro r h0; have := hd h0; simp; omega
+    cases esc with
+    | true =>
+      rw [stmtsGo] at h
+      exact fin (ih _ _ _ _ _ (grow _) x h)
+    | false =>
+      rw [stmtsGo] at h
+      split at h
+      · exact fin (ih _ _ _ _ _ (fun h0 => by have := hd h0; omega) x h)
+      · split at h
+        · split at h
+          · exact fin (ih false 1 [] i (i + 1) (fun _ => by simp) x h)
+          · rename_i h0
+            exact fin (ih false (d + 1) _ s (i + 1) (fun _ => grow _ h0) x h)
+        · split at h
+          · split at h
+            · exact fin (ih false 0 _ s (i + 1) (fun hh => absurd rfl hh) x h)
+            · rename_i h0
+              split at h
+              · rcases List.mem_cons.mp h with h | h
+                · subst h
+                  exact ⟨hd h0, by simp⟩
+                · exact fin (ih false 0 [] s (i + 1) (fun hh => absurd rfl hh) x h)
+              · exact fin (ih false (d - 1) _ s (i + 1) (fun _ => grow _ h0) x h)
+          · exact fin (ih _ _ _ _ _ (grow _) x h)
+
+theorem stmts_span (t : List Char) (x : Stmt) (h : x ∈ stmts t) :
+    x.body.length + x.start + 1 ≤ x.stop ∧ x.stop < t.length := by
+  have := stmtsGo_span t false 0 [] 0 0 (fun hh => absurd rfl hh) x h
+  simpa using this
+
+/-- Every reported index points inside the template. -/
+theorem synErrsF_index (split : List Char → List (List Char)) (known : List Char → Bool)
+    (hsplit : ∀ b a, a ∈ split b → a.length ≤ b.length) :
+    ∀ (f : Nat) (t : List Char), ∀ e ∈ synErrsF split known f t, e.index < t.length := by
+  intro f
+  induction f with
+  | zero => intro t e h; simp [synErrsF] at h
+  | succ f ih =>
+    intro t e h
+    rw [synErrsF] at h
+    rcases List.mem_append.mp h with h | h
+    · obtain ⟨s, hs, he⟩ := List.mem_flatMap.mp h
+      have hsp := stmts_span t s hs
+      unfold stmtErrs at he
+      split at he
+      · simp at he; subst he; show s.start < t.length; omega
+      · cases he
+      · rename_i name x xs hsplt
+        split at he
+        · obtain ⟨e', he', rfl⟩ := List.mem_map.mp he
+          obtain ⟨a, ha, hea⟩ := List.mem_flatMap.mp he'
+          have h1 := ih a e' hea
+          have h2 := hsplit s.body a (by rw [hsplt]; exact List.mem_cons_of_mem _ ha)
+          show e'.index + s.start < t.length
+          omega
+        · simp at he; subst he; show s.start < t.length; omega
+    · unfold openErr at h
+      cases ho : openStart t with
+      | none => rw [ho] at h; cases h
+      | some k =>
+        rw [ho] at h
+        simp at h; subst h
+        have := openStart_pos t k ho
+        obtain ⟨hk, _⟩ := List.getElem?_eq_some_iff.mp this
+        exact hk
+
+theorem mem_synOf {errs : List CErr} {e : CErr} {k : SynKind} (he : e ∈ errs) (hk : synKindOf e.kind = some k) :
+    (⟨k, e.context, e.index⟩ : SynErr) ∈ synOf errs := by
+  unfold synOf
+  exact List.mem_filterMap.mpr ⟨e, he, by simp [hk]⟩
+
 end Rare.C09
